@@ -63,6 +63,11 @@ def vectors(rng, np, domain, L, n_random, zeros=True):
             if zeros and rng.random() < 0.25:
                 v[rng.randrange(L)] = 0.0
         out.append(v.tolist())
+    if domain != "simplex":
+        # the same directions at magnitude 1e90 (squares still far from overflow): identical and parallel vectors are as identical
+        # and parallel there as at magnitude 1
+        for v in list(out[-n_random:])[:3]:
+            out.append([a * 1e90 for a in v])
     if domain == "nonneg" and L >= 2:
         # normalised histograms (components summing to 1, up to rounding) are non-negative vectors too - and the inputs most
         # users of the ratio / root metrics actually have; near-identical pairs among them (one bin nudged by an ulp-sized amount)
